@@ -30,5 +30,96 @@ Theorem C19_image_stable : forall (A : Type) (p : wprog A),
   snd (pw_drop s1) = Ok tt /\ d_bytes (pw_dev (fst (pw_drop s1))) = d_bytes (pw_dev s1).
 Proof. exact image_stable. Qed.
 
+(** Copying through the public API (slice wapi, [Proofs/WapiCopy.v]).  P = [new guid; tops;
+    finalize] is a complete program of acceptable calls (Props/C01.v: [C01_api_accepts]) that ran
+    to the final state [st]; the reader reports the metadata
+    [m' = reader_view (fill_meta (ws_meta st))] and, for every point cloud item of [is], its points
+    ([C10_accepted_reads_back]).  The copying client issues [copy_calls m' points]: [new] with the
+    reported GUID, coordinate metadata, creation time, [register_extension] for every extension,
+    and per point cloud [add_pointcloud] with the reported GUID and prototype, every one of the
+    17 setters with the reported value (both limits always: [None] clears the default as the
+    original did), [add_point] for every raw point, [finalize], drop; then [finalize].
+    Then: the copy P2 is again a complete program of acceptable calls, every call of it returns Ok,
+    its final metadata equals the original's ([content_view]), its point cloud items (types and
+    points) are the original's, and the calls a client issues from the copy are P2 itself:
+    copying the copy is the identity.
+    [content_view st] = root, extensions, point clouds and images as written (float texts filled
+    in) with the FILE OFFSETS of the point clouds erased - nothing else is left out.  Blobs added
+    with [add_blob] that no image refers to are not copied: the reader does not report them.
+    Remaining hypotheses ([_partial]):
+    - [Forall not_im tops]: programs WITHOUT IMAGES (the abstraction of the state machine used in
+      the proof does not track the bytes of image blobs);
+    - Display prints every NaN alike, whatever sign and payload ([fmt64 (canon64 b) = fmt64 b]):
+      the reader gets the canonical NaN back, the copy must print the same text;
+    - [proto_canonical]: scale and offset of scaled integer records are not NaNs with a payload
+      (they enter the Cartesian / spherical bounds the copy recomputes). *)
+From E57 Require Import Base.Floats Model.Meta Model.MetaFile Model.XmlTree Model.XmlGen Model.WriterApi Model.WriterFull
+  Spec.XgWriterOk Spec.XeMetaOk Proofs.C04Compose
+  Proofs.WapiInv Proofs.WapiFullProg Proofs.WapiFullMeta Proofs.WapiFullInv Proofs.WapiFull Proofs.WapiAccept Proofs.WapiCopy.
+
+Theorem C19_copy_idempotent_partial : forall (fmt64 fmt32 : N -> xstring) (version : xstring),
+  (forall b, fmt64 (canon64 b) = fmt64 b) -> (forall b, fmt32 (canon32 b) = fmt32 b) ->
+  forall guid tops s st rs,
+  units tops -> Forall not_im tops -> Forall call_wf tops ->
+  (forall g proto, In (AddPointcloud g proto) tops -> proto_canonical proto) ->
+  acceptable_calls (gen_xml_full fmt64 fmt32) (lib_version_text version) ws_init ls_init
+    (NewWriter guid :: tops ++ [Finalize]) ->
+  wrun (writer_run fmt64 fmt32 version (NewWriter guid :: tops ++ [Finalize])) pw0 = (s, Ok (st, rs)) ->
+  forall is os bl, explains tops is os (ws_pcs st) (ws_imgs st) bl ->
+  let m' := reader_view (fill_meta fmt64 fmt32 (ws_meta st)) in
+  let tops2 := copy_tops m' (item_points is) in
+  let P2 := copy_calls m' (item_points is) in
+  P2 = NewWriter (rt_guid (ws_root st)) :: tops2 ++ [Finalize] /\
+  units tops2 /\ Forall not_im tops2 /\ Forall call_wf tops2 /\
+  acceptable_calls (gen_xml_full fmt64 fmt32) (lib_version_text version) ws_init ls_init P2 /\
+  exists s2 st2 rs2,
+    wrun (writer_run fmt64 fmt32 version P2) pw0 = (s2, Ok (st2, rs2)) /\ Forall res_ok rs2 /\
+    content_view fmt64 fmt32 st2 = content_view fmt64 fmt32 st /\
+    forall is2 os2 bl2, explains tops2 is2 os2 (ws_pcs st2) (ws_imgs st2) bl2 ->
+      item_pcs is2 = item_pcs is /\
+      copy_calls (reader_view (fill_meta fmt64 fmt32 (ws_meta st2))) (item_points is2) = P2.
+Proof. exact copy_idempotent_partial. Qed.
+
+(** ... and reading the copy: with the float oracles of the read-back and strings / limits inside
+    its quantifier ([call_ok]; the copy's calls inherit it: [copy_calls_ok]), the copy's file opens,
+    its XML extracts to the copy's metadata (= the original's up to file offsets), and its items -
+    the original's point cloud types and points - are read back exactly. *)
+Theorem C19_copy_reads_back_partial : forall (fmt64 fmt32 : N -> xstring) (pf64 pf32 : xstr -> option N)
+    (fdiv : N -> Z -> N) (version : xstring),
+  (forall b, plain_text (fmt64 b) = true) -> (forall b, plain_text (fmt32 b) = true) ->
+  (forall b, pf64 (fmt64 b) = Some (canon64 b)) -> (forall b, pf32 (fmt32 b) = Some (canon32 b)) ->
+  string_ok (lib_version_text version) = true ->
+  (forall b, fmt64 (canon64 b) = fmt64 b) -> (forall b, fmt32 (canon32 b) = fmt32 b) ->
+  forall guid tops s st rs,
+  units tops -> Forall not_im tops ->
+  Forall call_ok (NewWriter guid :: tops ++ [Finalize]) ->
+  (forall g proto, In (AddPointcloud g proto) tops -> proto_canonical proto) ->
+  acceptable_calls (gen_xml_full fmt64 fmt32) (lib_version_text version) ws_init ls_init
+    (NewWriter guid :: tops ++ [Finalize]) ->
+  wrun (writer_run fmt64 fmt32 version (NewWriter guid :: tops ++ [Finalize])) pw0 = (s, Ok (st, rs)) ->
+  forall is os bl, explains tops is os (ws_pcs st) (ws_imgs st) bl ->
+  let m' := reader_view (fill_meta fmt64 fmt32 (ws_meta st)) in
+  let tops2 := copy_tops m' (item_points is) in
+  let P2 := copy_calls m' (item_points is) in
+  exists s2 st2 rs2,
+    wrun (writer_run fmt64 fmt32 version P2) pw0 = (s2, Ok (st2, rs2)) /\ Forall res_ok rs2 /\
+    content_view fmt64 fmt32 st2 = content_view fmt64 fmt32 st /\
+    (forallb pc_u64 (ws_pcs st2) = true -> forallb im_ok (ws_imgs st2) = true -> len (ws_exts st2) < 65535 ->
+     (forall xml, gen_root (fill_meta fmt64 fmt32 (ws_meta st2)) = Ok xml -> len xml <= MAX_XML_SIZE) ->
+     len (d_bytes (pw_dev (fst (pw_flush s2)))) < 2 ^ 64 ->
+     exists is2 os2 xml2 bl2,
+       explains tops2 is2 os2 (ws_pcs st2) (ws_imgs st2) bl2 /\
+       item_pcs is2 = item_pcs is /\
+       copy_calls (reader_view (fill_meta fmt64 fmt32 (ws_meta st2))) (item_points is2) = P2 /\
+       let f := d_bytes (pw_dev (fst (pw_flush s2))) in
+       all_pages_valid f = true /\
+       exists rs0 h d',
+         reader_open (dev_init f None) = (d', Ok (rs0, h, xml2)) /\
+         read_meta pf64 pf32 fdiv xml2 = Ok (reader_view (fill_meta fmt64 fmt32 (ws_meta st2))) /\
+         Forall2 (reads_back rs0) is2 os2).
+Proof. exact copy_reads_back_partial. Qed.
+
 Print Assumptions C19_copy_binary.
 Print Assumptions C19_image_stable.
+Print Assumptions C19_copy_idempotent_partial.
+Print Assumptions C19_copy_reads_back_partial.
